@@ -24,11 +24,12 @@ func main() {
 	elaenv.InitLog(run.Out)
 	rng := lib.NewRng(run.Seed)
 	st := lib.NewStats("C40", "snapshot cases: one per snapshot function (DPoS CheckPoint.Snapshot, Arbiters.Snapshot, CR Checkpoint.Snapshot, Committee.Snapshot, txpool Snapshot) x container size, on live states whose every map/slice/pointer is populated by a reflect filler; non-trivial = snapshot non-nil with >0 reference identities and >0 live mutations applied. lockset cases: one per pair of method summaries with a conflicting field access; distinct by (method, method, field)")
-	sh := &lib.Shards{Dir: run.Out, Imports: "From ELA Require Import corr.C40_corr.", CaseType: "C40_corr.case",
+	sh := &lib.Shards{Dir: run.Out, Imports: "From ELA Require Import corr.C40_corr model.C40_Locks gen.C40_summaries.", CaseType: "C40_corr.case",
 		Mismatch: "C40_corr.mismatches", Scope: "N", PerShard: 400}
 	id := 0
 	next := func() int { id++; return id }
 
+	runLockset(run, st, sh, next)
 	runSnapshots(run, rng, st, sh, next)
 
 	st.Traces = st.Evals
